@@ -238,8 +238,12 @@ def _spinn_cases(rng, tier):
         if D >= 4:
             Bs = [1, 2]
         for B in Bs:
-            R, deg = rng.choice([1, 2]), (2 if D <= 3 else rng.choice([1, 2]))
+            R, deg = rng.choice([1, 2]), 2
             coef = c11._coef(rng, D, R * m, deg)
+            for sub in coef:      # every feature is genuinely quadratic: no second derivative vanishes identically
+                for row in sub:
+                    if row[2] == 0:
+                        row[2] = rng.choice([-1, 1, 2])
             X = c11._batch(rng, B, D)
             exps = list(itertools.product(range(deg + 1), repeat=D))
             tw = c11._twin_coef(coef, R, m, exps)
